@@ -387,6 +387,8 @@ def finish(ctx, coverage, assumptions, level="model_checking"):
     coverage["known_findings_hit"] = {kid: n for kid, (k, n) in khit.items()}
     if ctx.notes:
         coverage["notes"] = ctx.notes
+        for n in ctx.notes:
+            print("NOTE: property=%s %s" % (ctx.pid, n))
     rc = 0
     if new:
         rc = 1
